@@ -9,7 +9,7 @@ CHECKS = {
         "text": "TxReaders.tla models database.WithTxReadClosers (one read transaction, k readers, the close-hook counter) and the "
                 "readers GetObject returns on a DB-backed part store (a reader touches the transaction when it opens the next part). "
                 "TLC proves on the intended design, for k=0..4 readers and every order of Read/ReadToEnd/Close (repeated up to 3x)/"
-                "ReadAfterClose, that the transaction is rolled back exactly once, never before all distinct readers are closed, as "
+                "ReadAfterClose/ConcClose (two goroutines inside Close of the same reader), that the transaction is rolled back exactly once, never before all distinct readers are closed, as "
                 "soon as the last one is, and that no read of an open reader fails. TLC then emits every action sequence to depth 2k+3 "
                 "for k<=2 and seeded random walks for k=3,4 as programs; the Go driver executes each on a real MetadataPartStorage over "
                 "the SQL part store (multi-range GetObject on a 3-part object) and on WithTxReadClosers directly (fake readers, "
@@ -30,7 +30,7 @@ def _interesting(p):
     """a reader is read after a different reader was closed"""
     closed = set()
     for s in p["steps"]:
-        if s["act"] == "Close":
+        if s["act"] in ("Close", "ConcClose"):
             closed.add(s["i"])
         elif s["act"] in ("Read", "ReadToEnd") and any(c != s["i"] for c in closed):
             return True
@@ -71,7 +71,10 @@ def run(ctx):
         for mode in ("storage", "direct"):
             if mode == "storage" and p["k"] == 0 and not p["fnerr"]:
                 continue  # GetObject without ranges returns one full-object reader: that is k = 1
-            if ctx.quick() and mode == "direct" and p["k"] == 2 and rnd.random() < 0.6:
+            conc = any(s_["act"] == "ConcClose" for s_ in p["steps"])
+            if conc and mode == "storage":
+                continue  # two goroutines inside Close of one reader need the gated fake inner reader of direct mode
+            if ctx.quick() and mode == "direct" and p["k"] == 2 and rnd.random() < (0.5 if conc else 0.6):
                 continue  # quick: direct mode runs a seeded 40 % of the k = 2 programs (storage mode runs all)
             q = dict(p)
             q["mode"] = mode
@@ -86,6 +89,7 @@ def run(ctx):
     vlib.write_ndjson(ctx.path("programs.ndjson"), progs)
     by_id = {p["prog"]: p for p in progs}
 
+    race_failure = None
     # 3. execute on the real code (thorough: additionally a seeded sample and the concurrent rounds under the race detector)
     drv = ctx.gobuild("txreaders")
     p = ctx.run([drv, ctx.path("programs.ndjson"), ctx.path("trace.ndjson"), ctx.path("scratch"), str(conc_iters)],
@@ -99,8 +103,16 @@ def run(ctx):
             q["prog"] = len(progs) + i + 1
         vlib.write_ndjson(ctx.path("programs-race.ndjson"), sub)
         pr = ctx.run([ctx.gobuild("txreaders", race=True), ctx.path("programs-race.ndjson"), ctx.path("trace-race.ndjson"),
-                      ctx.path("scratch-race"), "100"], timeout=2400)
-        ctx.log("race:", pr.stdout.strip().splitlines()[-1])
+                      ctx.path("scratch-race"), "100"], timeout=2400, check=False)
+        if pr.returncode != 0:
+            # a data race report (or a crash) of the race build is not a verdict by itself; it ends the run as an
+            # infrastructure failure unless the validated logs show a violation
+            race_failure = "race build failed (exit %d): %s" % (pr.returncode, pr.stdout[-1500:])
+            ctx.log(race_failure[:300])
+            open(ctx.path("trace-race.ndjson"), "w").close()
+            sub = []
+        else:
+            ctx.log("race:", pr.stdout.strip().splitlines()[-1])
         with open(ctx.path("trace.ndjson"), "a") as f:
             f.write(open(ctx.path("trace-race.ndjson")).read())
         progs += sub
@@ -125,7 +137,8 @@ def run(ctx):
                 cov["fnerr"] = cov.get("fnerr", 0) + 1
     repeated = sum(1 for q in progs for i in range(1, 5) if sum(1 for s_ in q["steps"] if s_ == {"act": "Close", "i": i}) > 1)
     cov["programs_with_repeated_close"] = repeated
-    need = ["Read", "ReadToEnd", "ReadAfterClose", "Close", "t:end", "t:conc", "mode:storage", "mode:direct",
+    cov["ConcClose_forced"] = sum(1 for r in trace if r["t"] == "step" and r["act"] == "ConcClose" and r.get("forced"))
+    need = ["Read", "ReadToEnd", "ReadAfterClose", "Close", "ConcClose", "ConcClose_forced", "t:end", "t:conc", "mode:storage", "mode:direct",
             "k0", "k1", "k2", "k3", "k4", "fnerr", "programs_with_repeated_close"]
     missing = [n for n in need if not cov.get(n)]
     if missing and not aborted:
@@ -136,6 +149,7 @@ def run(ctx):
     def build_selftests():
         start = next(i for i, r in enumerate(trace) if r["t"] == "reset" and r["mode"] == "storage" and r["k"] == 2
                      and not r["fnerr"] and _interesting(by_id[r["prog"]])
+                     and not any(s_["act"] == "ConcClose" for s_ in by_id[r["prog"]]["steps"])
                      and not any(by_id[r["prog"]]["steps"].count(s_) > 1 for s_ in by_id[r["prog"]]["steps"] if s_["act"] == "Close"))
         end = next(i for i in range(start, len(trace)) if trace[i]["t"] == "end")
         block = trace[start:end + 1]
@@ -219,6 +233,8 @@ def run(ctx):
                            json.dumps(trace[r["l"] - 1]) if r["l"] <= len(trace) else "?"))
     if not selftest_ok and ctx.violations == 0:
         raise vlib.Infra("binding self-test: corrupted programs %s of 4 were rejected" % bad)
+    if race_failure and ctx.violations == 0:
+        raise vlib.Infra(race_failure)
     if aborted and ctx.violations == 0:
         raise vlib.Infra("driver aborted early but no violation was found")
     failing_reads = sum(1 for r in trace if r["t"] == "step" and r["err"] == "txdone")
@@ -231,6 +247,6 @@ def run(ctx):
         "a read 'needs' the transaction exactly when it opens the next part (chunks of 256 MB make every part one chunk)",
         "k <= 4 readers, <= 3 Close calls per reader, 3-part object of 24 bytes; larger k only by the symmetry of the counter",
     ]
-    return ("programs = call sequences over Read/ReadToEnd/Close/ReadAfterClose on k readers generated by TLC from TxReaders.tla "
-            "(all sequences to depth 2k+3 for k<=2, seeded random walks for k=3,4), executed in storage and direct mode (quick: direct mode on a seeded 40 % of the k=2 programs); "
+    return ("programs = call sequences over Read/ReadToEnd/Close/ReadAfterClose/ConcClose on k readers generated by TLC from TxReaders.tla "
+            "(all sequences to depth 2k+3 for k<=2, seeded random walks for k=3,4), executed in storage and direct mode (quick: direct mode on a seeded 40-50 % of the k=2 programs; ConcClose programs in direct mode only); "
             "non-trivial = some reader is read after a different reader was closed")
